@@ -759,6 +759,14 @@ func (x *Exec) havocTarget(p *Path, ctx *EvalCtx, target string, ghost bool, fc 
 		if len(t.Args) != 1 {
 			ctx.fail("modifies: %s takes one argument", t.Fn)
 		}
+		if t.Fn == "allelems" {
+			// allelems(T): the elements of every []T (whole heap key), e.g. the buckets of every rolling counter
+			for _, kk := range ctx.readKeys("elems(" + t.Args[0].String() + ")") {
+				e.keySort[kk[0]] = kk[1]
+				e.heapHavoc(p, kk[0])
+			}
+			return
+		}
 		v := ctx.eval(t.Args[0])
 		switch t.Fn {
 		case "elems":
@@ -1315,6 +1323,8 @@ func (x *Exec) acquire(p *Path, own Owner, label, mode string) {
 		p.clock = t
 	}
 	x.assumeLockInv(p, own)
+	// the axioms speak about the current heap: state them again for the state behind the lock
+	x.assumeAxioms(p)
 	p.trace = append(p.trace, "lock:"+label)
 	if x.fc != nil && x.fc.Atomic != "" && !p.atomicTaken && p.top().depth == 0 && label == x.fc.Atomic {
 		p.atomicTaken = true
